@@ -7,6 +7,7 @@ pub mod c03;
 pub mod c05;
 pub mod c08;
 pub mod c12;
+pub mod c16;
 
 pub fn dispatch(id: &str, tier: Tier, seed: u64, replay: Option<PathBuf>) -> i32 {
     match id {
@@ -16,6 +17,7 @@ pub fn dispatch(id: &str, tier: Tier, seed: u64, replay: Option<PathBuf>) -> i32
         "C05" => run(&c05::C05, tier, seed, replay),
         "C08" => run(&c08::C08, tier, seed, replay),
         "C12" => run(&c12::C12, tier, seed, replay),
+        "C16" => run(&c16::C16, tier, seed, replay),
         _ => {
             eprintln!("vp: unknown property {}", id);
             2
